@@ -143,19 +143,47 @@ func decodeObs(c wal.Codec, bs []byte, withTime bool) (obs string, l raft.Log) {
 	}()
 	// decode into a struct that was used before, as raft does when it reuses a raft.Log:
 	// every field must be overwritten
-	l = dirtyLog()
+	var held func() string
+	l, held = dirtyHeld()
 	err := c.Decode(bs, &l)
+	if msg := held(); msg != "" && heldWitness != nil {
+		heldWitness(msg)
+	}
 	if err != nil {
 		return "err", l
 	}
 	return "ok " + logFields(&l, withTime), l
 }
 
+// heldWitness is set by the executors that call decodeObs (it needs their ctx and line)
+var heldWitness func(msg string)
+
 // dirtyLog is a raft.Log holding the remains of an earlier use
 func dirtyLog() raft.Log {
-	return raft.Log{Index: 0xdead, Term: 0xbeef, Type: raft.LogType(7), Data: []byte("stale data of an earlier entry"),
-		Extensions: []byte("stale extensions"), AppendedAt: time.Unix(1, 1)}
+	// the slices have spare capacity: a decoder that fills the destination's slices in place
+	// overwrites memory the previous holder of that entry still references
+	d := make([]byte, 0, 1<<17)
+	e := make([]byte, 0, 4096)
+	return raft.Log{Index: 0xdead, Term: 0xbeef, Type: raft.LogType(7), Data: append(d, dirtyData...),
+		Extensions: append(e, dirtyExt...), AppendedAt: time.Unix(1, 1)}
 }
+
+const dirtyData, dirtyExt = "stale data of an earlier entry", "stale extensions"
+
+// dirtyHeld: a dirty log plus a check that the slices it held BEFORE the decode (the result of
+// an earlier read that somebody may still hold, e.g. a cache) were left alone (C12: a log
+// returned by GetLog stays unchanged by later reads)
+func dirtyHeld() (raft.Log, func() string) {
+	l := dirtyLog()
+	d0, e0 := l.Data, l.Extensions
+	return l, func() string {
+		if string(d0) != dirtyData || string(e0) != dirtyExt {
+			return fmt.Sprintf("decoding into a raft.Log that holds an earlier entry overwrote that entry's bytes in place: Data %q, Extensions %q", trunc(string(d0), 40), trunc(string(e0), 40))
+		}
+		return ""
+	}
+}
+
 
 func logsEqual(a, b *raft.Log) bool {
 	return a.Index == b.Index && a.Term == b.Term && a.Type == b.Type &&
@@ -214,6 +242,8 @@ func parseLogFields(f []string) *raft.Log {
 
 func execCodec(c *ctx, line string) string {
 	codec := &wal.BinaryCodec{}
+	heldWitness = func(msg string) { c.witness("C12", "read-overwrites-held-entry", "BinaryCodec.Decode: "+msg, line) }
+	defer func() { heldWitness = nil }()
 	f := strings.Split(line, " ")
 	switch f[0] {
 	case "enc":
